@@ -63,49 +63,23 @@ impl EnforcementState {
 pub trait Validator: Sized {
 
 //@fn vls-core/src/policy/validator.rs :: trait Validator :: set_next_holder_commit_num props=C01,C02,C10
-    requires old(estate).next_holder_commit_num < COMMIT_LIMIT,
-    ensures
-        // the holder counter only ever moves forward by exactly one, with this request's info and signatures
-        r.is_ok() ==> num == old(estate).next_holder_commit_num + 1,                         //[C01.set-holder.step-by-one]
-        r.is_ok() ==> *final(estate) == (EnforcementState {
-            next_holder_commit_num: num,
-            current_holder_commit_info: Some(current_commitment_info),
-            current_counterparty_signatures: Some(counterparty_signatures),
-            ..*old(estate) }),                                                               //[C01.set-holder.frame]
-        r.is_err() ==> *final(estate) == *old(estate),                                       //[C10.set-holder.err-frame]
+//@include frag/c/v_set_next_holder_commit_num.rs
 //@end
 
 //@fn vls-core/src/policy/validator.rs :: trait Validator :: get_current_holder_commitment_info props=C02,C10
-    requires old(estate).next_holder_commit_num <= COMMIT_LIMIT, commitment_number <= COMMIT_LIMIT,
-    ensures
-        *final(estate) == *old(estate),                                                      //[C10.get-current-holder.frame]
-        // only the current (never an already revoked) holder commitment is handed to the signing paths
-        r.is_ok() && vx_strict(T_policy_other) ==>
-            commitment_number + 1 == old(estate).next_holder_commit_num,                     //[C02.get-current-holder.is-current]
-        r.is_ok() ==> old(estate).current_holder_commit_info == Some(r->Ok_0),               //[C02.get-current-holder.stored-info]
+//@include frag/c/v_get_current_holder_commitment_info.rs
 //@end
 
 //@fn vls-core/src/policy/validator.rs :: trait Validator :: set_next_counterparty_commit_num props=C03,C10
-    requires old(estate).next_counterparty_commit_num < COMMIT_LIMIT, old(estate).next_counterparty_revoke_num <= COMMIT_LIMIT,
-    ensures
-        r.is_ok() && vx_strict(T_policy_other) && vx_strict(T_policy_commitment_previous_revoked) ==>
-            cp_commit_guard(*old(estate), num),                                              //[C03.set-cp-commit.guard]
-        r.is_ok() ==> *final(estate) == es_set_cp_commit(*old(estate), num, current_point, current_commitment_info),  //[C03.set-cp-commit.exact]
-        r.is_err() ==> *final(estate) == *old(estate),                                       //[C10.set-cp-commit.err-frame]
+//@include frag/c/v_set_next_counterparty_commit_num.rs
 //@end
 
 //@fn vls-core/src/policy/validator.rs :: trait Validator :: set_next_counterparty_revoke_num props=C03,C10
-    requires num < COMMIT_LIMIT, old(estate).next_counterparty_revoke_num <= COMMIT_LIMIT,
-    ensures
-        r.is_ok() && vx_strict(T_policy_other) && vx_strict(T_policy_commitment_previous_revoked) ==>
-            cp_revoke_guard(*old(estate), num),                                              //[C03.set-cp-revoke.guard]
-        r.is_ok() ==> *final(estate) == es_set_cp_revoke(*old(estate), num),                 //[C03.set-cp-revoke.exact]
-        r.is_err() ==> *final(estate) == *old(estate),                                       //[C10.set-cp-revoke.err-frame]
+//@include frag/c/v_set_next_counterparty_revoke_num.rs
 //@end
 
 //@fn vls-core/src/policy/validator.rs :: trait Validator :: validate_payment_cltv props=C06
-    ensures
-        r.is_ok() && vx_strict(T_policy_routing_cltv_delta) ==> incoming_cltv > outgoing_cltv,   //[C06.cltv.delta]
+//@include frag/c/v_validate_payment_cltv.rs
 //@end
 
 } // trait Validator
